@@ -467,7 +467,21 @@ pub fn run(ctx: &mut Ctx) {
 
     let n = ctx.budget(10_000, 300_000);
     ctx.phase("header-edits", n, |ctx, k| {
-        let h = gen::header(&mut ctx.rng);
+        let mut h = gen::header(&mut ctx.rng);
+        if k % 25 == 0 {
+            // signing data on both sides of the compact-size boundary: many / long witness elements
+            match &mut h.ext {
+                BlockExtData::Proof { solution, .. } => {
+                    let l = *gen::pick(&mut ctx.rng, &[252usize, 253, 254, 1000]);
+                    *solution = Script::from(gen::bytes(&mut ctx.rng, l));
+                }
+                BlockExtData::Dynafed { signblock_witness, .. } => {
+                    let n = *gen::pick(&mut ctx.rng, &[1usize, 252, 253, 254]);
+                    let l = if n == 1 { *gen::pick(&mut ctx.rng, &[252usize, 253, 300]) } else { 2 };
+                    *signblock_witness = (0..n).map(|_| gen::bytes(&mut ctx.rng, l)).collect();
+                }
+            }
+        }
         ctx.eval();
         let bh = h.block_hash().to_byte_array();
         let want = ref_block_hash(&h);
